@@ -32,8 +32,10 @@ def norm(d, proto):
 
 def main(run):
     run.cov["trusted_base"] = vlib.TRUSTED_COMMON + [
-        "model: Wire/OptCodec.v Wire/Pdu.v Wire/Build.v (abstract builder; the in-place byte "
-        "patches of coap_insert_option are tied, not transcribed)"]
+        "model: Wire/OptCodec.v Wire/Pdu.v Wire/Build.v (abstract builder) and Wire/InsertBytes.v "
+        "(the in-place byte edit of coap_insert_option transcribed branch by branch, proved to "
+        "refine the abstract insert - C01_insert_bytes_refine - and tied to the C on parsed "
+        "datagrams: command bins)"]
     run.assumptions = ["allocation never fails (C18 covers failures)",
                        "option values <= 65804 bytes (the encoder wraps silently above; outside the property)"]
     run.prove()
@@ -112,5 +114,18 @@ def main(run):
         nbad += 1
         run.violation("option header codec differs from the proved model (leaf sweep)",
                       "case: %s\nmodel: %s\nimpl : %s\n" % (ln, a, b), tag="sweep%d" % nbad)
+    # byte-level tie of coap_insert_option (Wire/InsertBytes.v, theorem C01_insert_bytes_refine):
+    # the in-place edit on parsed datagrams, all six header-patch classes
+    bl = [gen_wire.gen_bins_case(r) for _ in range(1500 if run.tier == "quick" else 40000)]
+    bm, bc, _ = tie.run_both(model, drv, bl)
+    bbad = [(bl[i], bm[i], bc[i]) for i in range(len(bl)) if bm[i] != bc[i]]
+    from collections import Counter
+    run.cov["insert_bytes_tie"] = {"cases": len(bl), "disagreements": len(bbad),
+                                   "outcomes": dict(Counter("insert" if o.startswith("r=") else o.split(" ")[0] for o in bc))}
+    run.cov["evaluations"] += len(bl)
+    for ln, a, b in bbad[:2]:
+        nbad += 1
+        run.violation("coap_insert_option's in-place edit differs from the proved byte-level model",
+                      "case: %s\nmodel: %s\nimpl : %s\n" % (ln, a, b), tag="bins%d" % nbad)
     run.cov["disagreements"] = nbad
     run.cov["corpus_cases"] = len(corpus)
